@@ -399,7 +399,7 @@ _lyht_insert_with_resize_cb(struct ly_ht *ht, void *val_p, uint32_t hash, lyht_v
     /* check size & enlarge if needed */
     ++ht->used;
     if (ht->resize) {
-        r = (ht->used * LYHT_HUNDRED_PERCENTAGE) / ht->size;
+        r = ((uint64_t)ht->used * LYHT_HUNDRED_PERCENTAGE) / ht->size;
         if ((ht->resize == 1) && (r >= LYHT_FIRST_SHRINK_PERCENTAGE)) {
             /* enable shrinking */
             ht->resize = 2;
@@ -486,7 +486,7 @@ lyht_remove_with_resize_cb(struct ly_ht *ht, void *val_p, uint32_t hash, lyht_va
     /* check size & shrink if needed */
     --ht->used;
     if (ht->resize == 2) {
-        r = (ht->used * LYHT_HUNDRED_PERCENTAGE) / ht->size;
+        r = ((uint64_t)ht->used * LYHT_HUNDRED_PERCENTAGE) / ht->size;
         if ((r < LYHT_SHRINK_PERCENTAGE) && (ht->size > LYHT_MIN_SIZE)) {
             if (resize_val_equal) {
                 old_val_equal = lyht_set_cb(ht, resize_val_equal);
